@@ -625,6 +625,19 @@ func init() {
 		apiAttrs += fmt.Sprintf(",%d", next)
 		next++
 	}
+	// documents that switch on per-compilation flags of the render options while rendering (a lone right-aligned text in a
+	// section next to a plain mj-style: "an empty style tag is required"; a title; a preview; a breakpoint; debug-looking
+	// content): whatever a compilation leaves in an options object must not reach the next one
+	for _, d := range []string{
+		`<mjml><mj-head><mj-style>.x { color: red; }</mj-style></mj-head><mj-body><mj-section><mj-column><mj-text align="right">R</mj-text></mj-column></mj-section></mj-body></mjml>`,
+		`<mjml><mj-head><mj-title>Only here</mj-title><mj-preview>Preview only here</mj-preview><mj-breakpoint width="320px"/></mj-head><mj-body width="480px"><mj-section><mj-column><mj-text align="right">R</mj-text></mj-column></mj-section><mj-wrapper><mj-section><mj-group><mj-column><mj-text>g</mj-text></mj-column></mj-group></mj-section></mj-wrapper><mj-hero><mj-text>h</mj-text></mj-hero></mj-body></mjml>`,
+	} {
+		apiDocs = append(apiDocs, d)
+		apiOkBits += "1"
+		apiValBits += "0"
+		apiStateBits += "0"
+		apiAttrs += ",0"
+	}
 	for _, cl := range isoClasses() {
 		for _, d := range []string{cl.a, cl.b} {
 			apiDocs = append(apiDocs, d)
